@@ -95,9 +95,25 @@ def closer (cfg : Cfg S D) (tree : Array (Node S)) (q : S) (i j : Nat) : Bool :=
   | some a, some b => !cfg.lt (cfg.dist b.state q) (cfg.dist a.state q)
   | _, _ => true
 
+/-- stable merge (left element first when `le x y`), structurally recursive on the fuel so that the
+model also evaluates in the kernel -/
+def mergeF (le : Nat → Nat → Bool) : Nat → List Nat → List Nat → List Nat
+  | 0, xs, ys => xs ++ ys
+  | _ + 1, [], ys => ys
+  | _ + 1, xs, [] => xs
+  | f + 1, x :: xs, y :: ys =>
+    if le x y then x :: mergeF le f xs (y :: ys) else y :: mergeF le f (x :: xs) ys
+
+/-- stable top-down merge sort with fuel (`l.length` is enough) -/
+def msortF (le : Nat → Nat → Bool) : Nat → List Nat → List Nat
+  | 0, l => l
+  | f + 1, l =>
+    if l.length < 2 then l
+    else mergeF le l.length (msortF le f (l.take (l.length / 2))) (msortF le f (l.drop (l.length / 2)))
+
 /-- `NearestNeighborsLinear::nearestR(query, radius, nbh)` as motion indices -/
 def nearestR (cfg : Cfg S D) (tree : Array (Node S)) (q : S) : List Nat :=
-  ((List.range tree.size).filter (nbrAt cfg tree q)).mergeSort (closer cfg tree q)
+  msortF (closer cfg tree q) tree.size ((List.range tree.size).filter (nbrAt cfg tree q))
 
 /-- `for (neighbor : neighbors) { w = pdf_.getWeight(elem); pdf_.update(elem, w / (w + 1.)); }` -/
 def bumpNeighbors [WOps D] (cfg : Cfg S D) (pdf : Pdf D) (nbrs : List Nat) : Pdf D :=
